@@ -1,5 +1,6 @@
 import TongoModel.Cell
 import TongoModel.CellHashSpec
+import TongoModel.Hashmap
 /-! Merkle proof construction (boc/merkle_proof.go, `immutableCell.pruneCells` in boc/immutable_cell.go,
 `tlb.ProveKeyInHashmap` in tlb/hashmap.go), modelled on cell trees.
 
@@ -97,8 +98,8 @@ def cellAt : Cell → List Nat → Option Cell
 
 /-! ### dictionary labels and `ProveKeyInHashmap` -/
 
-/-- `minBitsRequired` = bit length -/
-def bitLen (n : Nat) : Nat := if n = 0 then 0 else Nat.log2 n + 1
+/-- `minBitsRequired` = bit length (agent dict's model of boc.minBitsRequired, exact below 2^64) -/
+def bitLen (n : Nat) : Nat := Hashmap.minBitsRequired n
 
 /-- leading ones and the rest after the terminating zero (`ReadUnary`); `none` = ran out of bits -/
 def readUnary : List Bool → Option (Nat × List Bool)
